@@ -184,6 +184,51 @@ pub fn zinc_decode(text: &str) -> Result<Value, Verdict> {
     }
 }
 
+/// A writer that is slow to take bytes: every `write` accepts at most a few bytes of what it is offered (sizes
+/// cycle through `steps`), which `Write` permits and pipes, sockets and small buffers do. `flush` is a no-op.
+pub struct ShortWriter {
+    pub out: Vec<u8>,
+    steps: Vec<usize>,
+    calls: usize,
+}
+impl ShortWriter {
+    pub fn new(salt: u64) -> ShortWriter {
+        ShortWriter { out: vec![], steps: vec![1 + (salt % 7) as usize, 1 + ((salt >> 8) % 3) as usize, 1 + ((salt >> 16) % 61) as usize], calls: 0 }
+    }
+}
+impl std::io::Write for ShortWriter {
+    fn write(&mut self, buf: &[u8]) -> std::io::Result<usize> {
+        if buf.is_empty() {
+            return Ok(0);
+        }
+        let n = self.steps[self.calls % self.steps.len()].min(buf.len());
+        self.calls += 1;
+        self.out.extend_from_slice(&buf[..n]);
+        Ok(n)
+    }
+    fn flush(&mut self) -> std::io::Result<()> {
+        Ok(())
+    }
+}
+
+/// `to_zinc` into a writer that takes a few bytes per call must produce the text `to_zinc_string` produces.
+pub fn zinc_encode_short_writes(hv: &Value, text: &str) -> Verdict {
+    use libhaystack::encoding::zinc::encode::ToZinc;
+    let mut w = ShortWriter::new(crate::runner::key_of(text));
+    match guarded(|| hv.to_zinc(&mut w)) {
+        Ok(Ok(())) => {
+            if w.out != text.as_bytes() {
+                let got = String::from_utf8_lossy(&w.out).to_string();
+                let at = w.out.iter().zip(text.as_bytes()).position(|(a, b)| a != b).unwrap_or(w.out.len().min(text.len()));
+                return Verdict::fail("short-writes:text-differs", format!("to_zinc into a writer that accepts 1-61 bytes per call wrote {} bytes, to_zinc_string {} bytes; first difference at byte {at}: ...{:?} vs ...{:?}", w.out.len(), text.len(), trunc(&got[got.char_indices().map(|(i, _)| i).filter(|i| *i <= at.saturating_sub(20)).last().unwrap_or(0)..], 60), trunc(&text[text.char_indices().map(|(i, _)| i).filter(|i| *i <= at.saturating_sub(20)).last().unwrap_or(0)..], 60)));
+            }
+            Verdict::Pass
+        }
+        Ok(Err(e)) => Verdict::fail("short-writes:error", format!("to_zinc into a slow writer failed: {e}")),
+        Err(p) => Verdict::fail(format!("short-writes:{}", panic_sig(&p)), p.msg),
+    }
+}
+
 /// Decode through `Parser::make` over a reader that hands the text out in pieces (sizes derived from the text).
 pub fn zinc_decode_in_pieces(text: &str) -> Result<Value, Verdict> {
     use crate::gen::readers::{PlanReader, ReaderPlan};
